@@ -120,7 +120,7 @@ var c19Phases []*fw.Phase
 func init() {
 	parsers := &fw.Phase{
 		Name:         "address-parsers",
-		N:            fw.Fixed(250000, 5000000),
+		N:            fw.Fixed(500000, 5000000),
 		CrashVerdict: c19Crash,
 		Run: func(env *fw.Env, idx int) fw.Result {
 			s := c19String(env, idx)
